@@ -25,7 +25,7 @@ class InstrumentError(Exception):
 def copy_tree(dst):
     src = common.REPO
     # rsync keeps mtimes; target/ and .git/ are not needed
-    rc = subprocess.call(["rsync", "-a", "--exclude", "/target", "--exclude", ".git", src + "/", dst + "/"])
+    rc = subprocess.call(["rsync", "-a", "--exclude", "/target", "--exclude", "/target-verif-replay", "--exclude", ".git", src + "/", dst + "/"])
     if rc != 0:
         raise InstrumentError("rsync failed")
 
